@@ -87,8 +87,9 @@ theorem Levels.decC_cost : CostR 3 71 292 Levels.decC := by
     cbind (readCountC_cost_fixed (fun q hq => fmtDecC_cost LevelRecord.fmt hq) 29 _ (by assumption))
     apply Cost.step (n := 7) (by rw [isReadableC_w']; omega) (by intro h; cases h)
     intro r _
-    refine Cost.bind ?_ ?_
-    · cif
+    apply Cost.bind
+    case hm =>
+      cif
       · cbind (readNC_cost 4)
         cbind (readUC_cost 2)
         cif
@@ -97,7 +98,8 @@ theorem Levels.decC_cost : CostR 3 71 292 Levels.decC := by
         cbind (readCountC_cost (fun q hq => fmtDecC_cost LevelRecord.fmt hq) (by decide) _ _ (by assumption))
         cdone
       · cdone
-    · intro _ _ _ _
+    case hf =>
+      intro _ _ _ _
       dsimp only
       cif
       cdone
@@ -130,11 +132,13 @@ theorem PhotoFilter.decC_cost : CostR 1 3 17 PhotoFilter.decC := by
     unfold PhotoFilter.decC
     cbind (readUC_cost 2)
     cif
-    refine Cost.bind ?_ ?_
-    · cif
+    apply Cost.bind
+    case hm =>
+      cif
       · exact Cost.map (g := fun (r : Row) => (r, ([] : Row))) (fmtDecC_cost PhotoFilter.xyzFmt)
       · exact Cost.map (g := fun (r : Row) => (([] : Row), r)) (fmtDecC_cost PhotoFilter.colorFmt)
-    · intro _ _ _ _
+    case hf =>
+      intro _ _ _ _
       dsimp only
       cbind (fmtDecC_cost PhotoFilter.tailFmt)
       cdone
@@ -426,7 +430,15 @@ theorem CurvesExtraItem.decEC_fst (isMap : Bool) (d : B) (p : Nat) :
       | error e => rfl
       | ok z => rfl
 
-theorem mapFmt_size : fmtSize mapFmt = 256 := by decide
+theorem fmtSize_replicate_U1 (n : Nat) : fmtSize (List.replicate n (U 1)) = n := by
+  induction n with
+  | zero => rfl
+  | succ n ih =>
+    rw [List.replicate_succ]
+    show 1 + fmtSize (List.replicate n (U 1)) = n + 1
+    omega
+
+theorem mapFmt_size : fmtSize mapFmt = 256 := fmtSize_replicate_U1 256
 
 /-- `for c in range(point_count)`: every point consumes 4 bytes -/
 theorem CurvesExtraItem.decEC_cost (isMap : Bool) (d : B) (p : Nat) (hp : p ≤ d.length) :
@@ -438,7 +450,7 @@ theorem CurvesExtraItem.decEC_cost (isMap : Bool) (d : B) (p : Nat) (hp : p ≤ 
       ebind (fmtDecEC_cost [U 2])
       ebind (fmtDecEC_cost mapFmt)
       exact CostE.ok _ (by assumption)
-    all_goals (rw [mapFmt_size]; decide)
+    all_goals first | (rw [mapFmt_size]; decide) | decide
   · apply CostE.mono
     case h =>
       ebind (fmtDecEC_cost [U 2, U 2])
@@ -538,10 +550,10 @@ theorem Curves.extraDecC_fst (isMap : Bool) (version : Nat) (d : B) (p : Nat) :
   split
   · rw [← CurvesExtraMarker.decEC_fst isMap d p]
     cases h : (CurvesExtraMarker.decEC isMap d p).1 with
-    | ok y => simp only [h]
+    | ok y => simp only
     | error y =>
       obtain ⟨e, q⟩ := y
-      cases e <;> simp only [h]
+      cases e <;> simp only
   · rfl
 
 /-- the attempt is paid by the bytes it consumed: the marker when it was read, the part before the read that ran out
@@ -555,7 +567,7 @@ theorem Curves.extraDecC_cost (isMap : Bool) (version : Nat) : CostR 268 272 0 (
     | ok y =>
       obtain ⟨m, p'⟩ := y
       have h1 := hm.of_ok h
-      simp only [h]
+      simp only
       refine Cost.intro (fun v q hx => ?_) (fun e hx => by cases hx)
       cases hx
       exact ⟨by omega, h1.2.1, h1.2.2⟩
@@ -563,7 +575,7 @@ theorem Curves.extraDecC_cost (isMap : Bool) (version : Nat) : CostR 268 272 0 (
       obtain ⟨e, q⟩ := y
       have h1 := hm.of_error h
       have hle : 268 * (q - p) ≤ 268 * (d.length - p) := Nat.mul_le_mul_left _ (by omega)
-      cases e <;> simp only [h]
+      cases e <;> simp only
       case ioError =>
         refine Cost.intro (fun v q' hx => ?_) (fun e hx => by cases hx)
         cases hx
